@@ -46,7 +46,7 @@ def run(ctx):
     configs = 0
     # ---- MST -------------------------------------------------------------------------------------------
     w, total, label = run_config(ctx, MST, 'MST', {}, env={'epsilon': sym('epsilon'), 'delta': sym('delta')})
-    budget_ob(ctx, repo.func(MST, 'MST'), total, sym('rho'), 'MST', w)
+    budget_ob(ctx, repo.nfunc(MST, 'MST'), total, sym('rho'), 'MST', w)
     collect(covered, w)
     configs += 1
     # ---- MWEM+PGM ----------------------------------------------------------------------------------------
@@ -55,7 +55,7 @@ def run(ctx):
         env = {'rounds': sym('rounds'), 'epsilon': sym('epsilon'), 'delta': sym('delta'), 'alpha': sym('alpha'),
                'workload': Opaque('workload', Tag('public')), 'maxsize_mb': sym('maxsize_mb'), 'pgm_iters': sym('pgm_iters')}
         w, total, label = run_config(ctx, MWEM, 'mwem_pgm', flags, env=env, bounded=bounded, pure=(noise == 'laplace'))
-        budget_ob(ctx, repo.func(MWEM, 'mwem_pgm'), total, sym('epsilon') if noise == 'laplace' else sym('rho'),
+        budget_ob(ctx, repo.nfunc(MWEM, 'mwem_pgm'), total, sym('epsilon') if noise == 'laplace' else sym('rho'),
                   'mwem_pgm[noise=%s, bounded=%s]' % (noise, bounded), w)
         collect(covered, w)
         configs += 1
@@ -63,7 +63,7 @@ def run(ctx):
     for split in (None, 'given'):
         env = {'epsilon': sym('epsilon'), 'delta': sym('delta'), 'threshold': sym('threshold'), 'targets': Opaque('targets', Tag('public'))}
         w, total, label = run_config(ctx, AG, 'adagrid', {'split_strategy': split}, env=env)
-        budget_ob(ctx, repo.func(AG, 'adagrid'), total, sym('rho'), 'adagrid[split_strategy=%s]' % ('default' if split is None else 'given'), w)
+        budget_ob(ctx, repo.nfunc(AG, 'adagrid'), total, sym('rho'), 'adagrid[split_strategy=%s]' % ('default' if split is None else 'given'), w)
         collect(covered, w)
         configs += 1
     ctx.floor('closed-form budget configurations', configs, 7)
